@@ -24,26 +24,62 @@ def sh(cmd, cwd=None, timeout=7200):
     return p.returncode, p.stdout + p.stderr
 
 
+def write_results():
+    """seeded/RESULTS.md from every meta.json: the result of the final pass on /repo itself where it
+    exists (`results`), else what the run against a patched copy recorded (`detected_by`)"""
+    rows = []
+    for sid in sorted(d for d in os.listdir(SEEDED) if os.path.isdir(os.path.join(SEEDED, d))):
+        try:
+            meta = json.load(open(os.path.join(SEEDED, sid, "meta.json")))
+        except OSError:
+            continue
+        needs = meta.get("needs_to_manifest", "").replace("|", "/")
+        res = meta.get("results")
+        if res and "_error" in res:
+            rows.append((sid, meta["property"], needs, res["_error"], "", ""))
+        elif res:
+            caught = [c for c, r in res.items() if not c.startswith("_") and r["exit"] != 0]
+            ran = [c for c in res if not c.startswith("_")]
+            kind = ""
+            for c in caught:
+                v = res[c]["violations"]
+                kind = "no-failing-input-found" if v and v[0].endswith("no-failing-input-found") else "failing input"
+            rows.append((sid, meta["property"], needs, ", ".join(caught) or "MISSED (ran " + ", ".join(ran) + ")", kind,
+                         "/repo at " + res.get("_repo_head", "?")))
+        else:
+            det = meta.get("detected_by") or {}
+            caught = [c for c, v in det.items() if v]
+            rows.append((sid, meta["property"], needs, ", ".join(caught) or "MISSED", "", "patched copy (seed_confirm)"))
+    with open(os.path.join(SEEDED, "RESULTS.md"), "w") as f:
+        f.write("# Seeded changes: which checks catch which\n\n"
+                "| seeded change | breaks | what it needs to manifest | caught by | how | run against |\n|---|---|---|---|---|---|\n")
+        for r in rows:
+            f.write("| " + " | ".join(r) + " |\n")
+
+
 def main():
     ids = sys.argv[1:] or sorted(d for d in os.listdir(SEEDED) if os.path.isdir(os.path.join(SEEDED, d)))
     rc, out = sh("git status --porcelain", cwd=REPO)
     if out.strip():
         print("refusing: /repo has uncommitted changes:\n" + out)
         return 2
-    rows = []
+    rc, head = sh("git rev-parse --short HEAD", cwd=REPO)
+    head = head.strip()
     for sid in ids:
         d = os.path.join(SEEDED, sid)
         meta = json.load(open(os.path.join(d, "meta.json")))
         checks = meta.get("checks") or [meta["property"]]
         if os.environ.get("SEEDED_PRIMARY_ONLY"):
-            # the check of the property the change breaks (plus, when that is not listed, the first listed)
+            # the check of the property the change breaks (when that is not listed, the first listed)
             checks = [meta["property"]] if meta["property"] in checks else checks[:1]
         rc, out = sh(f"git apply {os.path.join(d, 'patch.diff')}", cwd=REPO)
         if rc != 0:
             print(sid, "patch does not apply:", out)
-            rows.append((sid, meta["property"], meta.get("needs_to_manifest", "").replace("|", "/"), "patch does not apply", ""))
+            meta["results"] = {"_error": "patch does not apply to " + head}
+            json.dump(meta, open(os.path.join(d, "meta.json"), "w"), indent=1)
+            write_results()
             continue
-        results = {}
+        results = {"_repo_head": head}
         try:
             for c in checks:
                 t0 = time.time()
@@ -57,21 +93,12 @@ def main():
                     except OSError:
                         pass
                 results[c] = {"exit": rc, "violations": viol[:3], "replay_head": replay, "wall_s": round(time.time() - t0, 1)}
-                print(sid, c, "exit", rc, viol[:1])
+                print(sid, c, "exit", rc, viol[:1], flush=True)
         finally:
             sh("git checkout -- .", cwd=REPO)
         meta["results"] = results
         json.dump(meta, open(os.path.join(d, "meta.json"), "w"), indent=1)
-        caught = [c for c, r in results.items() if r["exit"] != 0]
-        kind = ""
-        for c in caught:
-            v = results[c]["violations"]
-            kind = "no-failing-input-found" if v and v[0].endswith("no-failing-input-found") else "failing input"
-        rows.append((sid, meta["property"], meta.get("needs_to_manifest", "").replace("|", "/"), ", ".join(caught) or "MISSED", kind))
-    with open(os.path.join(SEEDED, "RESULTS.md"), "w") as f:
-        f.write("# Seeded changes: which checks catch which\n\n| seeded change | breaks | what it needs to manifest | caught by | how |\n|---|---|---|---|---|\n")
-        for r in rows:
-            f.write("| " + " | ".join(r) + " |\n")
+        write_results()
     # restore the evidence files of the unchanged tree
     for c in sorted({c for sid in ids for c in (json.load(open(os.path.join(SEEDED, sid, "meta.json"))).get("checks") or [])}):
         rc, out = sh(f"./check {c} --tier quick", cwd=HERE)
